@@ -27,6 +27,8 @@ from . import core, sym, arr, shim, loader
 from .arr import SArr
 
 VERIF = os.path.dirname(os.path.dirname(os.path.abspath(__file__)))
+if loader.REPO not in sys.path:
+    sys.path.insert(0, loader.REPO)     # replays import the same tree the encoding was generated from
 
 EXIT_OK, EXIT_VIOLATION, EXIT_HARNESS = 0, 1, 2
 
